@@ -101,9 +101,12 @@ pub fn path_family(thorough: bool) -> (Vec<Vec<u8>>, Vec<u8>) {
     (paths, firsts)
 }
 
-pub fn path_envs(p: &[u8], big_depth: usize) -> Vec<T> {
+pub fn path_envs(p: &[u8], big_depth: usize, spines: bool) -> Vec<T> {
     let mut n1 = 0;
-    let mut v = vec![complete_tree(big_depth, &mut n1), spine(90, &|_| false), spine(90, &|_| true), spine(90, &|i| i % 2 == 0), spine(90, &|i| i % 2 == 1)];
+    let mut v = vec![complete_tree(big_depth, &mut n1)];
+    if spines {
+        v.extend([spine(90, &|_| false), spine(90, &|_| true), spine(90, &|i| i % 2 == 0), spine(90, &|i| i % 2 == 1)]);
+    }
     if let Some(bits) = path_bits(p) {
         if bits.len() <= 80 {
             v.push(env_along(&bits, 3));
@@ -345,7 +348,7 @@ pub fn c06(thorough: bool, replay: Option<String>) -> i32 {
                 1 => T::list(&[T::a(&[2]), quote(T::A(p.clone())), T::a(&[1])]),
                 _ => T::list(&[T::a(&[4]), T::A(p.clone()), quote(T::int(1))]),
             };
-            for env in path_envs(p, 9) {
+            for env in path_envs(p, 9, true) {
                 compare_c06(st, &prog, &env, spell, fixed, "paths");
             }
         });
